@@ -204,7 +204,7 @@ def run(ctx):
     tag, _ = run_case(ex)
     ctx.sample({"case": ex, "attrs": [[k, str(v)] for k, v in tag.attrs.items()]})
     # 2. random programs
-    for _ in range(ctx.budget(5000, 300000)):
+    for _ in range(ctx.budget(5000, 4000000)):
         c = rand_case(rng)
         check_case(ctx, c)
         if rng.random() < 0.3:
